@@ -959,6 +959,7 @@ func (g *groupQuery) Select(t iterator) NodeNavigator {
 }
 
 func (g *groupQuery) Evaluate(t iterator) interface{} {
+	g.posit = 0
 	return g.Input.Evaluate(t)
 }
 
